@@ -362,6 +362,16 @@ func run(c Case, withRestarts bool) (res runResult) {
 			}
 		}
 		hashesBefore := hashesOf(env.Store)
+		// serving a request never changes the metadata the server holds for a registered SP
+		var regBefore map[string]string
+		if s.Op == "sso" || s.Op == "launch" {
+			regBefore = map[string]string{}
+			for _, v := range m.services {
+				if ent := entityOfVariant(v); ent != "" {
+					regBefore[ent] = env.RegisteredXML(ent)
+				}
+			}
+		}
 
 		env.Store.Counting(true)
 		rep := env.Serve(b)
@@ -408,6 +418,11 @@ func run(c Case, withRestarts bool) (res runResult) {
 			}
 		}
 
+		for ent, before := range regBefore {
+			if after := env.RegisteredXML(ent); after != before {
+				fail(i, s, "serving the request changed the metadata registered for %q\n  before: %s\n  after : %s", ent, trunc([]byte(diffTail(before, after))), trunc([]byte(diffTail(after, before))))
+			}
+		}
 		// ---- exactly one well-formed reply
 		if rep.Panic != "" {
 			fail(i, s, "handler panicked: %s", rep.Panic)
@@ -830,6 +845,20 @@ func clampI(i, n int) int {
 		return n - 1
 	}
 	return i
+}
+
+// diffTail returns a from the first byte where it differs from b (with a little context).
+func diffTail(a, b string) string {
+	i := 0
+	for i < len(a) && i < len(b) && a[i] == b[i] {
+		i++
+	}
+	if i > 60 {
+		i -= 60
+	} else {
+		i = 0
+	}
+	return a[i:]
 }
 
 func short(s string) string {
